@@ -14,6 +14,16 @@ def roles_rule(ctx, rule, quals, with_return=True, skip_kinds=(), only_kinds=Non
         if ret is not None:
             req.append({"return"})
         n += roles.check_paths(ctx, rule, qn, paths, ret, skip_kinds=skip_kinds, only_kinds=only_kinds, require=req)
+        # the role table is keyed by parameter names: the function's own docstring must state the same order (DESIGN 3.1)
+        from .. import contracts
+        f = ctx.pkg.functions.get(qn)
+        if f is not None:
+            for par, st, txt in contracts.docstring_contract(f):
+                if st == "silent":
+                    continue
+                ctx.check(rule, "%s|docstring-contract|%s" % (qn, par), True if st == "confirmed" else None,
+                          "the docstring states the order assumed for '%s' (%s)" % (par, txt), fn=qn, nontrivial=False,
+                          undecided="specification drift: the docstring of %s declares '%s : %s', which is not the order the role table assumes" % (qn.rsplit(".", 1)[1], par, txt))
     return n
 
 
